@@ -32,7 +32,7 @@ def _argv_cwd(argv, cwd):
 
 
 def generate(d, process, sensor, cal, scratch, name, *, cse=True, filtering=5.0, max_dt=0.1, kind="ekf", rng=None, container="set",
-             raw_noise=False):
+             raw_noise=False, config_as_dict=False, noise_keys="same"):
     """returns paths; raises whatever the generator raises"""
     from formak import cpp
     root = os.path.join(scratch, name)
@@ -41,6 +41,10 @@ def generate(d, process, sensor, cal, scratch, name, *, cse=True, filtering=5.0,
     source = os.path.join(root, f"{name}.cpp")
     m = fk.ui_model(d, rng, container)
     cfg = cpp.Config(common_subexpression_elimination=cse, innovation_filtering=filtering, max_dt_sec=max_dt)
+    if config_as_dict:     # the entry points also take the configuration as a plain dict (the repository's generator scripts do)
+        cfg = {"common_subexpression_elimination": cse, "innovation_filtering": filtering, "max_dt_sec": max_dt}
+    # the noise map may key its readings by Symbol where the sensor model keys them by str (names are what counts)
+    nk = (lambda r_: sympy.Symbol(r_)) if noise_keys == "symbol" else (lambda r_: r_)
     cal_map = {s: float(cal[s.name]) for s in d.calibration}
     with _argv_cwd(["generator.py", "--header", header, "--source", source, "--namespace", "verifns"], core.REPO), \
             contextlib.redirect_stdout(io.StringIO()):
@@ -48,7 +52,7 @@ def generate(d, process, sensor, cal, scratch, name, *, cse=True, filtering=5.0,
             r = cpp.compile_ekf(
                 m, process_noise={sympy.Symbol(n): (v if raw_noise else float(v)) for n, v in process.items()},
                 sensor_models={k: dict(rd) for k, rd in d.sensors.items()},
-                sensor_noises={k: {r_: (v if raw_noise else float(v)) for r_, v in rd.items()} for k, rd in sensor.items()},
+                sensor_noises={k: {nk(r_): (v if raw_noise else float(v)) for r_, v in rd.items()} for k, rd in sensor.items()},
                 calibration_map=cal_map, config=cfg)
         else:
             r = cpp.compile(m, calibration_map=cal_map, config=cfg)
